@@ -18,10 +18,13 @@ for path in sys.argv[1:]:
     pat = re.compile(r'<<<<<<< [^\n]*\n(.*?)(?:\|\|\|\|\|\|\| [^\n]*\n.*?)?=======\n(.*?)>>>>>>> [^\n]*\n', re.S)
     def repl(m):
         ours, theirs = m.group(1), m.group(2)
-        lines = ours.splitlines(keepends=True)
-        for l in theirs.splitlines(keepends=True):
-            if l not in lines: lines.append(l)
-        return ''.join(lines)
+        # import / module lists: de-duplicate lines; any other file: keep both sides in full
+        if path.endswith(('Aqua.lean', 'AquaProps.lean', 'mod.rs')):
+            lines = ours.splitlines(keepends=True)
+            for l in theirs.splitlines(keepends=True):
+                if l not in lines: lines.append(l)
+            return ''.join(lines)
+        return ours + theirs
     s = pat.sub(repl, s)
     open(path, 'w').write(s)
     print('resolved', path)
